@@ -300,12 +300,16 @@ def _worker(args):
                     out['tags']['budget-stop'] = out['tags'].get('budget-stop', 0) + 1
                     break
                 mine += 1
-                if overlap and held is None and mine % 8 == 0:
+                can_overlap = getattr(mod, 'overlap_ok', None)
+                if overlap and held is None and mine % 8 == 0 and (can_overlap is None or can_overlap(case)):
                     held = case
                     continue
                 try:
-                    if held is not None:
+                    if held is not None and (can_overlap is None or can_overlap(case)):
                         todo = _run_overlapped(mod, model, [held, case])
+                        held = None
+                    elif held is not None:
+                        todo = [(held, mod.run_case(held, model)), (case, mod.run_case(case, model))]
                         held = None
                     else:
                         todo = [(case, mod.run_case(case, model))]
@@ -331,7 +335,7 @@ def _worker(args):
 
 
 # properties whose cases run over scripted sockets in one greenlet: two of them can be run at the same time
-OVERLAP_PROPS = {'C05', 'C07', 'C08', 'C09', 'C10', 'C17'}
+OVERLAP_PROPS = {'C05', 'C07', 'C08', 'C09', 'C10', 'C17', 'C11'}      # C11: real sockets, the cases yield by themselves
 
 
 def _run_overlapped(mod, model, cases):
